@@ -17,13 +17,11 @@ def Scope.valueOf (sc : Scope) (n : String) : FR (Option LiteralValue) :=
 
 /-- what `Asn::try_resolve` looks at in the definition found under a type name -/
 inductive EnumView where
-  | diverges
   | enumerated (e : Enumerated)
   | other
 
 def Scope.enumView (sc : Scope) (n : String) : EnumView :=
   match sc.resolveTypeRef n with
-  | .error .fuel => .diverges
   | .ok (.enumerated e) => .enumerated e
   | _ => .other
 
@@ -55,7 +53,12 @@ theorem resolveSizeVal_view (sc : Scope) (l : USz) :
       | .ref n =>
         match sc.valueOf n with
         | .ok (some v) =>
-          (match v.toInteger with | some i => .ok (i64AsUsize i) | none => .error .failedToParseLiteral)
+          (match v.toInteger with
+           | some i =>
+             (match usizeTryFrom i with
+              | some k => .ok k
+              | none => .error .failedToResolveReference)
+           | none => .error .failedToParseLiteral)
         | .ok none => .error .failedToResolveReference
         | .error e => .error e := by
   cases l with
@@ -83,19 +86,14 @@ theorem resolveConst_view (sc : Scope) (l : UConst) :
     | error e => rfl
     | ok o => cases o <;> rfl
 
-theorem enumView_diverges (sc : Scope) (r : String) (h : sc.resolveTypeRef r = .error .fuel) :
-    sc.enumView r = .diverges := by
-  simp [Scope.enumView, h]
-
 theorem enumView_enumerated (sc : Scope) (r : String) (e : Enumerated)
     (h : sc.resolveTypeRef r = .ok (.enumerated e)) : sc.enumView r = .enumerated e := by
   simp [Scope.enumView, h]
 
-theorem enumView_other (sc : Scope) (r : String) (h1 : sc.resolveTypeRef r ≠ .error .fuel)
+theorem enumView_other (sc : Scope) (r : String)
     (h2 : ∀ e, sc.resolveTypeRef r ≠ .ok (.enumerated e)) : sc.enumView r = .other := by
   unfold Scope.enumView
   split
-  · rename_i h3; exact absurd h3 h1
   · rename_i e h3; exact absurd h3 (h2 e)
   · rfl
 
@@ -107,7 +105,6 @@ theorem resolveDefault_view (sc : Scope) (ty : RTy) (d : UConst) :
         match ty with
         | .typeReference referenced _ =>
           match sc.enumView referenced with
-          | .diverges => .error .fuel
           | .enumerated e =>
             (match e.variants.find? fun v => name == v.name with
              | some v => .ok (.enumeratedVariant referenced v.name)
@@ -121,13 +118,11 @@ theorem resolveDefault_view (sc : Scope) (ty : RTy) (d : UConst) :
     case typeReference referenced tag =>
       simp only [Scope.resolveDefault]
       split
-      · rename_i he
-        rw [enumView_diverges sc referenced he]
       · rename_i e he
         rw [enumView_enumerated sc referenced e he]
         cases hfind : List.find? (fun v => name == v.name) e.variants <;> simp [hfind]
-      · rename_i h1 h2
-        rw [enumView_other sc referenced h1 h2]
+      · rename_i h2
+        rw [enumView_other sc referenced h2]
 
 variable {sc sc' : Scope} (h : ScopeEquiv sc sc')
 
